@@ -313,6 +313,8 @@ pub struct Report {
     started: Instant,
 }
 
+static CHECKPOINTED: std::sync::atomic::AtomicBool = std::sync::atomic::AtomicBool::new(false);
+
 impl Report {
     pub fn new(property: &str, args: &Args, rule: &str) -> Self {
         install_quiet_panic_hook();
@@ -450,10 +452,31 @@ impl Report {
     }
 
     /// Print the `@@RESULT` line and return the process exit code.
+    /// Print what has been gathered so far as a complete `@@RESULT` line and start afresh. A monitor calls this
+    /// after a section whose verdicts must survive a later section that hangs until the lane watchdog kills the
+    /// process (the driver merges every `@@RESULT` line of a lane).
+    pub fn checkpoint(&mut self) {
+        if self.evaluations == 0 {
+            return;
+        }
+        let fresh = self.child();
+        let done = std::mem::replace(self, fresh);
+        use std::io::Write;
+        let out = std::io::stdout();
+        let mut out = out.lock();
+        let _ = writeln!(out, "@@RESULT {}", done.to_json());
+        let _ = out.flush();
+        CHECKPOINTED.store(true, Ordering::SeqCst);
+    }
+
     pub fn finish(self) -> i32 {
         let observed_total: u64 = self.observed.values().sum();
         let mut code = 0;
-        if self.evaluations == 0 || observed_total == 0 {
+        if CHECKPOINTED.load(Ordering::SeqCst) && self.evaluations == 0 && self.violations.is_empty() && self.inconclusive.is_empty() {
+            // everything was already printed by a checkpoint
+            return 0;
+        }
+        if (self.evaluations == 0 || observed_total == 0) && !CHECKPOINTED.load(Ordering::SeqCst) {
             eprintln!(
                 "monitor observed nothing (evaluations={}, observed events={}): infrastructure error",
                 self.evaluations, observed_total
